@@ -25,7 +25,8 @@ META = {
         "and constants. Not decided: histories as such."
         ' Also: class-level containers mutated through instances, cache lookup key is the raw input, parser input does not derive from committed results, frozen MasterConfig fallbacks.'
         " Round 7: rule MEMO over the whole package - a result cache is keyed by everything the skipped computation reads (by value, not identity / length) and a hit restores every attribute a miss sets; lru_cache'd functions depend on their parameters only."
-        ' Round 8: MEMO also sees last-key caches, chained stores and fills that ignore the condition of their look-up; a Config object is not rewritten in place.'),
+        ' Round 8: MEMO also sees last-key caches, chained stores and fills that ignore the condition of their look-up; a Config object is not rewritten in place.'
+        ' Round 9: _UNDEF_* / _ERR_* placeholders are rebuilt from parts of their own kind; a filtered **kwargs dict does not fall back to an import-time MasterConfig default.'),
     'families': ['ESCAPE', 'GLOBALS', 'PURITY', 'FORWARD', 'DEADPARAM', 'SIB-DEFAULTS'],
 }
 
